@@ -44,6 +44,10 @@ fn run(r: &mut Run) -> Result<(), MachineryError> {
     // user-supplied wrap algorithms (one word per line; a naive greedy one that can emit an empty
     // first line): the indents do not depend on the algorithm
     let gc = Gamma { seps: seps(), algs: vec![Alg::CustomOnePerLine, Alg::CustomNaiveGreedy], spls: vec![Spl::Hyphen], bws: vec![true, false], indents: vec![("", ""), (">", ""), ("", "> "), ("* ", "  "), ("\u{4f60}", ">")], crlf: vec![false] };
+    // a hyphen-inserting splitter: lines that end in an inserted hyphen are built on a different
+    // code path than the others
+    let gh = Gamma { seps: seps(), algs: algs_default(), spls: vec![Spl::Cust], bws: vec![true, false], indents: vec![("", ""), (">", ""), ("", "> "), ("* ", "  "), ("\u{4f60}", ">")], crlf: vec![false] };
+    text_space(r, "C08/hyphen-inserting-splitter", &[L, LLL, SP, NL, W], t.pick(4, 6), &gh, M_C08, WidthMode::Display, 0)?;
     text_space(r, "C08/custom-algorithms", &[L, LLL, SP, NL, HY, W], t.pick(4, 6), &gc, M_C08, WidthMode::Display, 0)?;
 
     // differential: what follows the indent depends only on the indents' display widths and emptiness
